@@ -44,7 +44,8 @@ def regenerate(only: list[str] | None = None) -> dict[str, dict]:
                     os.remove(os.path.join(core.GEN_DIR, out[:-2] + ext))
                 except FileNotFoundError:
                     pass
-            res[out] = {"ok": False, "error": f"{type(e).__name__}: {e}", "changed": True,
+            stale = core.restore_lastgood(out)
+            res[out] = {"ok": False, "error": f"{type(e).__name__}: {e}", "changed": True, "stale_restored": stale,
                         "items": list(getattr(mod, "ITEMS", [])), "trace": traceback.format_exc()}
     return res
 
